@@ -153,8 +153,11 @@ def run(tier):
             if k < 0.5: r["x"] = rng.choice([0, 1, 2, 5, {"$f": 2.0}])
             elif k < 0.85: r["x"] = None          # (a MISSING column makes x != 5 true / the CASE NULL: recorded family NullNotEqualIsTrue / CaseNullOperandPoisons)
             else: r["x"] = "abc"                 # outside the decided domain for this row (any value) - but it must not change what later rows give
+            if i % 2 == 0 and j in (1, 3):
+                r.pop("x", None)                 # select-item variant: a row WITHOUT the column (its own value is left open) makes the fast path fail
             rows.append(r)
         meta = {"fam": "direct", "star": 0, "chan": 0, "sel": [{"al": "id", "e": exprgen.col("id")}, {"al": "r0", "e": e}], "profile": "neq_null_hist"}
+        if i % 2 == 0: meta["neqmissing_open"] = 1
         sc = {"meta": meta, "sql": "SELECT id, %s AS r0 FROM stream" % sql(e), "rows": rows, "noretype": True}
         if i % 3 == 0: sc["mode"] = "sync"
         scen.append(sc)
